@@ -137,6 +137,7 @@ type realSub struct {
 	taken  int
 	notify chan struct{}
 	done   chan struct{}
+	goid   int64 // the goroutine that called Pull (race scenarios)
 }
 
 func (s *realSub) push(e string) {
